@@ -929,6 +929,34 @@ def _c03_impl_tokens(case):
                 o = lambda s: None if s == '-' else bytes.fromhex(s[1:])
                 out.append(('D', a, b, o(f[2]), o(f[3]), o(f[4]), f[5] == 'true'))
     return out
+_TEXT_SWITCH = {b'textarea', b'title', b'plaintext', b'script', b'style', b'iframe', b'xmp', b'noembed', b'noframes', b'noscript'}
+def ambiguity_ref(tokens):
+    """The property's refusal rule over the reference token stream (complete tags only): a text-mode-switching start tag between a
+    select start tag and its end (template in select included; script is allowed directly in select; select/textarea/input/keygen
+    leave "in select") or anywhere after a frameset start tag (noframes allowed).  Returns the index of the refused token or None."""
+    st, depth = 'default', 0
+    for k, t in enumerate(tokens):
+        if t[0] == 'S':
+            n = t[3]
+            if st == 'default':
+                if n == b'select': st = 'select'
+                elif n == b'frameset': st = 'frameset'
+            elif st == 'select':
+                if n in (b'select', b'textarea', b'input', b'keygen'): st = 'default'
+                elif n == b'template': st, depth = 'template', 1
+                elif n != b'script' and n in _TEXT_SWITCH: return k
+            elif st == 'template':
+                if n == b'template': depth += 1
+                elif n in _TEXT_SWITCH: return k
+            elif st == 'frameset':
+                if n != b'noframes' and n in _TEXT_SWITCH: return k
+        elif t[0] == 'E':
+            n = t[3]
+            if st == 'select' and n == b'select': st = 'default'
+            elif st == 'template' and n == b'template':
+                depth -= 1
+                if depth == 0: st = 'select'
+    return None
 def oracle_c03(line, case, stats, allc=None, lines=None):
     cid = case['id']
     if not cid.endswith('.s'): return []
@@ -944,8 +972,20 @@ def oracle_c03(line, case, stats, allc=None, lines=None):
             low = whatwg_ref.lower(data)
             if not any(t in low for t in (b'<select', b'<frameset')):
                 errs.append('strict mode reported a parsing ambiguity although the document has neither a select nor a frameset start tag')
+            elif b'<svg' not in low and b'<math' not in low and b'\x00' not in data and b'\r' not in data:
+                # HTML-only documents: the refusal must be owed to a complete start tag of the reference token stream
+                ref, _ = whatwg_ref.analyse(data)
+                stats['refusals_checked_against_reference'] = stats.get('refusals_checked_against_reference', 0) + 1
+                if ambiguity_ref(ref) is None:
+                    m = re.search(rb'<([a-zA-Z][^\s/>]*)[^>]*$', data)      # the input ends inside an unfinished tag
+                    trunc = m is not None and whatwg_ref.lower(m.group(1)) in _TEXT_SWITCH
+                    errs.append('strict mode reported a parsing ambiguity but no text-mode-switching start tag occurs inside select / after frameset in the reference token stream%s' % (' [truncated-tag-at-eof]' if trunc else ''))
         return errs
     stats['strict_success'] = stats.get('strict_success', 0) + 1
+    low = whatwg_ref.lower(data)
+    if b'<svg' not in low and b'<math' not in low and b'\x00' not in data and b'\r' not in data and (b'<select' in low or b'<frameset' in low):
+        ref, _ = whatwg_ref.analyse(data)
+        if ambiguity_ref(ref) is not None: errs.append('strict mode succeeded although a text-mode-switching start tag occurs inside select / after frameset (token %d of the reference stream)' % ambiguity_ref(ref))
     if twin is not None and obslog.p_full(twin) != obslog.p_full(case):
         errs.append('the successful strict run differs from the non-strict run of the same input')
     if ' seed=2000 ' not in line and b'\x00' not in data and b'\r' not in data:
@@ -971,6 +1011,7 @@ def oracle_c03(line, case, stats, allc=None, lines=None):
     return errs[:3]
 
 def classify_c03(line, case, msg):
+    if '[truncated-tag-at-eof]' in msg: return 'StrictTruncatedTagAtEof'
     return 'IntegrationPointNameReuse' if '[ip-name-reuse]' in msg else None
 
 # ------------------------------------------------------------------------------------------------
